@@ -88,7 +88,6 @@ def canon (a : Annotation) : Bool :=
   canonInternal (Int.ofNat a.seq.length) a.internal &&
   canonIntervals (Int.ofNat a.seq.length) a.intervals &&
   canonOptMods '[' ']' a.cterm &&
-  (match a.charge with | none => true | some ch => decide (ch ≠ 0)) &&
   canonAdducts a.charge a.adducts
 
 /-- canonical results of `parse`: a canonical single chain that is not a bare residue string is produced by the
